@@ -22,7 +22,7 @@ import (
 
 // ---------------------------------------------------------------- guarded call
 
-var c19Deadline = 3 * time.Second
+var c19Deadline = 6 * time.Second // (generous: the final runs happen on a busy box; a hang is for ever anyway)
 
 // c19Hung counts calls that never returned (their goroutine keeps spinning; the process exits at the end)
 var c19Hung int
